@@ -22,7 +22,7 @@ class Hashmaster
   buffer64 *hashbuf;
 
 protected:
-  u32_t totalsize;
+  u64_t totalsize;
   /*
   addtotal:累加总长度
   len:长度
